@@ -16,12 +16,16 @@ import (
 	"github.com/IrineSistiana/mosdns/v5/pkg/query_context"
 	"github.com/IrineSistiana/mosdns/v5/pkg/utils"
 	"github.com/IrineSistiana/mosdns/v5/plugin/executable/sequence"
+	_ "github.com/IrineSistiana/mosdns/v5/plugin/mark" // the real "mark" matcher / executable (quick setup type "mark")
 	"github.com/miekg/dns"
 	"go.uber.org/zap"
 	"gopkg.in/yaml.v3"
 )
 
 var traceKey = query_context.RegKey()
+
+// keys of the values stored / deleted by the sv / dv actions and read by the V matcher
+var stateKeys = [3]uint32{query_context.RegKey(), query_context.RegKey(), query_context.RegKey()}
 
 // shared by all copies of one top-level execution
 type sharedExec struct {
@@ -143,7 +147,10 @@ func mkResp(id int) *dns.Msg {
 
 // ---- matcher ---------------------------------------------------------------
 
-type hMatch struct{ kind, label string }
+type hMatch struct {
+	kind, label string
+	n           int // K: mark, V: value key index, Q: query id, R: rcode
+}
 
 func (m *hMatch) Match(_ context.Context, q *query_context.Context) (bool, error) {
 	t := getT(q)
@@ -164,6 +171,32 @@ func (m *hMatch) Match(_ context.Context, q *query_context.Context) (bool, error
 			s = "=1"
 		}
 		return v, t.add("M " + m.label + s)
+	case "K": // has mark n
+		v := q.HasMark(uint32(m.n))
+		s := "=0"
+		if v {
+			s = "=1"
+		}
+		return v, t.add("M " + m.label + s)
+	case "V": // a value is stored under key n
+		if m.n < 0 || m.n >= len(stateKeys) {
+			return false, fmt.Errorf("c06 harness: value key %d", m.n)
+		}
+		x, ok := q.GetValue(stateKeys[m.n])
+		s := "=-"
+		if ok {
+			s = "=" + fmt.Sprint(x)
+		}
+		return ok, t.add("M " + m.label + s)
+	case "Q": // the query message id is n
+		id := int(q.Q().Id)
+		return id == m.n, t.add("M " + m.label + "=" + strconv.Itoa(id))
+	case "R": // a response is present and its rcode is n
+		r := q.R()
+		if r == nil {
+			return false, t.add("M " + m.label + "=-")
+		}
+		return r.Rcode == m.n, t.add("M " + m.label + "=" + strconv.Itoa(r.Rcode))
 	}
 	return false, fmt.Errorf("c06 harness: matcher kind %q", m.kind)
 }
@@ -184,7 +217,8 @@ func newHMatch(args string) (sequence.Matcher, error) {
 	if len(f) != 2 {
 		return nil, fmt.Errorf("c06 harness: matcher args %q", args)
 	}
-	return &hMatch{kind: f[0], label: f[1]}, nil
+	k, n := splitKind(f[0])
+	return &hMatch{kind: k, n: n, label: f[1]}, nil
 }
 
 // ---- plain action ----------------------------------------------------------
@@ -208,6 +242,25 @@ func (a *hAct) Exec(_ context.Context, q *query_context.Context) error {
 		q.SetResponse(mkResp(a.id))
 	case "drop":
 		q.SetResponse(nil)
+	case "mk":
+		q.SetMark(uint32(a.id))
+	case "um":
+		q.DeleteMark(uint32(a.id))
+	case "sv", "dv":
+		if a.id < 0 || a.id >= len(stateKeys) {
+			return fmt.Errorf("c06 harness: value key %d", a.id)
+		}
+		if a.kind == "sv" {
+			q.StoreValue(stateKeys[a.id], a.label)
+		} else {
+			q.DeleteValue(stateKeys[a.id])
+		}
+	case "qi":
+		q.Q().Id = uint16(a.id)
+	case "rm": // modifies the response in place (as ttl / redirect style plugins do)
+		if r := q.R(); r != nil {
+			r.Rcode = a.id
+		}
 	default:
 		return fmt.Errorf("c06 harness: action kind %q", a.kind)
 	}
@@ -325,6 +378,58 @@ func (w *hWrap) Exec(ctx context.Context, q *query_context.Context, next sequenc
 			return next.ExecNext(ctx, q)
 		}
 		return nil
+	case "cpa", "cpb", "cpc":
+		// fallback / lazy cache update / dual_selector style: take a Copy of the query
+		// and run the rest of the chain on the original AND on the copy: original first
+		// (cpa), copy first (cpb), or both at the same time, the copy on a new goroutine (cpc)
+		c := q.Copy()
+		ct := &tctx{sh: t.sh}
+		c.StoreValue(traceKey, ct)
+		var eo, ec error
+		var cpanic any
+		runCopy := func() {
+			defer func() {
+				if r := recover(); r != nil {
+					cpanic = r
+				}
+			}()
+			ec = next.ExecNext(ctx, c)
+		}
+		switch w.kind {
+		case "cpa":
+			eo = next.ExecNext(ctx, q)
+			runCopy()
+		case "cpb":
+			runCopy()
+			eo = next.ExecNext(ctx, q)
+		default:
+			done := make(chan struct{})
+			go func() {
+				defer close(done)
+				runCopy()
+			}()
+			func() {
+				defer func() { <-done }() // also when the original's run panics
+				eo = next.ExecNext(ctx, q)
+			}()
+		}
+		if cpanic != nil {
+			panic(cpanic)
+		}
+		if errors.Is(eo, errRunaway) {
+			return eo
+		}
+		if errors.Is(ec, errRunaway) {
+			return ec
+		}
+		t.deferred = append(t.deferred, ct.deferred...)
+		if err := t.add("W " + w.label + " copy [" + strings.Join(ct.buf, ";") + "]e=" + errLabel(ec) + ",r=" + realMarker(c) + " orig e=" + errLabel(eo) + " r=" + realMarker(q)); err != nil {
+			return err
+		}
+		if eo != nil {
+			return eo
+		}
+		return ec
 	case "conc":
 		type br struct {
 			q     *query_context.Context
@@ -406,7 +511,8 @@ func newWorld() *world {
 func makePlugin(s PluginSpec) (any, error) {
 	switch s.Class {
 	case "m":
-		return &hMatch{kind: s.Kind, label: s.Label}, nil
+		k, n := splitKind(s.Kind)
+		return &hMatch{kind: k, n: n, label: s.Label}, nil
 	case "a":
 		k, id := splitKind(s.Kind)
 		return &hAct{kind: k, id: id, label: s.Label}, nil
